@@ -220,10 +220,15 @@ def load_known(prop):
     if not os.path.exists(p): return []
     return [k for k in json.load(open(p)) if k.get('property') == prop and k.get('status') == 'open']
 
+CURRENT_WORK = None     # scratch directory of the running check; replaced by @WORK@ in replay files
+REPLAY_FILES = None     # callable(record) -> {name: bytes} of the work files a case needs (optional)
+
 def write_replay(prop, seed, n, payload):
     d = os.path.join(VERIF, 'replays', prop)
     os.makedirs(d, exist_ok=True)
     p = os.path.join(d, '%s-%s.json' % (seed, n))
+    if CURRENT_WORK:
+        payload = json.loads(json.dumps(payload, default=str).replace(CURRENT_WORK, '@WORK@'))
     json.dump(payload, open(p, 'w'), indent=1, default=str)
     return p
 
@@ -311,7 +316,7 @@ def finish(prop, tier, seed, t0, proof, recs, errs, known_sigs, rule, samples, d
 # --------------------------------------------------------------------------- generic check run
 
 def standard_run(prop, modules, gen_cases, tier, seed, replay, assumptions, rule, variant='plain',
-                 nontrivial=None, classify=None, timeout_s=20, extra_cov=None, post=None, env=None):
+                 nontrivial=None, classify=None, timeout_s=20, extra_cov=None, post=None, env=None, replay_setup=None):
     """regenerate -> prove/audit -> build driver + harness from the working tree -> run cases ->
     verdict.  gen_cases(tier, seed, ctx) returns a list of Case; ctx is a dict with 'work' (a scratch
     directory that is removed afterwards) and 'zdrv'."""
@@ -324,21 +329,27 @@ def standard_run(prop, modules, gen_cases, tier, seed, replay, assumptions, rule
         if not ok:
             proof['ok'] = False; proof['broken'].append('leanchecker: ' + '; '.join(out))
     drv_ok, drv_log = build_driver()
-    zdrv = B.build_exe(os.path.join(VERIF, 'harness', 'zdrv.c'), 'zdrv', variant=variant,
-                       extra_flags=['-I' + os.path.join(VERIF, 'harness')])
+    zsrc = os.path.join(VERIF, 'harness', 'zdrv.c')
+    zflags = ['-I' + os.path.join(VERIF, 'harness')]
+    zdrv = B.build_exe(zsrc, 'zdrv', variant=variant, extra_flags=zflags)
     work = os.path.join(VERIF, '.cache', 'work-%s-%d' % (prop, os.getpid()))
     shutil.rmtree(work, ignore_errors=True)
     os.makedirs(work)
-    ctx = dict(work=work, zdrv=zdrv, tier=tier, seed=seed)
+    ctx = dict(work=work, zdrv=zdrv, tier=tier, seed=seed, proof=proof)
+    global CURRENT_WORK
+    CURRENT_WORK = work
+    recs = []
     try:
         if replay:
             rp = json.load(open(replay))
             cases = []
+            if replay_setup:
+                replay_setup(ctx, rp)
             for name, hx in (rp.get('files') or {}).items():
                 open(os.path.join(work, name), 'wb').write(bytes.fromhex(hx))
             for line in rp.get('ops', []):
                 i, _, op = line.partition(' ')
-                cases.append(Case(i, op.replace('@WORK@', work)))
+                cases.append(Case(i, op.replace('@WORK@', work), (rp.get('metas') or {}).get(i) or rp.get('meta') or {}))
         else:
             cases = gen_cases(tier, seed, ctx)
         errs = []
@@ -348,8 +359,13 @@ def standard_run(prop, modules, gen_cases, tier, seed, replay, assumptions, rule
         e['ASAN_OPTIONS'] = 'allocator_may_return_null=1:detect_leaks=0:exitcode=99:abort_on_error=0'
         e['UBSAN_OPTIONS'] = 'print_stacktrace=1:halt_on_error=1:exitcode=98'
         if env: e.update(env)
-        recs, e2 = differential(cases, zdrv, work, files_env=e, timeout_s=timeout_s)
-        errs += e2
+        groups = {}
+        for c in cases:
+            groups.setdefault(c.meta.get('variant', variant), []).append(c)
+        for v, cs in groups.items():
+            exe = zdrv if v == variant else B.build_exe(zsrc, 'zdrv', variant=v, extra_flags=zflags)
+            r1, e2 = differential(cs, exe, os.path.join(work, 'run-' + v), files_env=e, timeout_s=timeout_s)
+            recs += r1; errs += e2
         if post:
             post(recs, ctx)
     finally:
